@@ -57,13 +57,19 @@ class _ZlibId:
     class _Forced:
         """compressor whose output is a given blob (any bytes of a given length), whatever goes in"""
 
+        def __init__(self):
+            self.parts = []
+
         def compress(self, b):
+            self.parts.append(b)
             return b""
 
         def flush(self):
+            _ZlibId.forced_src = [x for p in self.parts for x in list(p)]
             return _ZlibId.force_blob
 
     force_blob = None
+    forced_src = None
 
     @staticmethod
     def compressobj(*a, **k):
@@ -71,6 +77,12 @@ class _ZlibId:
 
     @staticmethod
     def decompress(b):
+        if _ZlibId.forced_src is not None and _ZlibId.force_blob is not None and len(b) == len(_ZlibId.force_blob):
+            if all(isinstance(x, int) for x in _ZlibId.forced_src):
+                return bytes(_ZlibId.forced_src)
+            from symx.strings import SymBytes
+
+            return SymBytes(_ZlibId.forced_src)  # the forced blob stands for exactly these records
         if _ZlibId.strict:
             from symx import s_and, s_or
 
@@ -380,6 +392,53 @@ def h_slicing(ctx, L):
     return f"{n} fragments"
 
 
+def _real_schedule_object(idx):
+    """a Schedule as Schedule.__init__ leaves it (so that its initial fragment set is the real one)"""
+    from ramses_rf.system import schedule as S
+
+    zone = types.SimpleNamespace(id=f"01:145038_{idx}", idx=idx, ctl=types.SimpleNamespace(id="01:145038"), tcs=None, _gwy=None)
+    sc = object.__new__(S.Schedule)
+    S.Schedule.__init__(sc, zone)
+    return sc
+
+
+def run_single(sched, blob, check):
+    """a schedule whose compressed form fits one fragment: received by a fresh Schedule object exactly as
+    Schedule._get_schedule's loop does it; then another zone, which has no schedule, is asked"""
+    from ramses_rf.system import schedule as S
+
+    _ZlibId.force_blob, _ZlibId.forced_src = blob, None
+    try:
+        frags = S.full_sched_to_fragz(sched)
+        if len(frags) != 1:
+            return f"{len(frags)} fragments"
+        payload = {S.SZ_FRAG_NUMBER: 1, S.SZ_TOTAL_FRAGS: 1, S.SZ_FRAGMENT: frags[0], "frag_length": len(frags[0]) // 2}
+        sc = _real_schedule_object(sched[S.SZ_ZONE_IDX])
+        sc._payload_set[0] = None  # as _get_schedule does before asking for the first fragment
+        sc._payload_set = sc._update_payload_set(sc._payload_set, dict(payload))
+        got = sc._full_schedule
+        check(bool(got) and S.SZ_SCHEDULE in got, "C17:complete-set-gives-the-schedule", f"one-fragment schedule read back as {str(got)[:60]}")
+        if got and S.SZ_SCHEDULE in got:
+            _check_same_schedule(types.SimpleNamespace(check=check), got, sched, "C17:reassembled-schedule-is-the-one-written-or-none")
+        # a zone without a schedule, asked afterwards: 'no schedule', and its own (empty) fragment set
+        other = _real_schedule_object("0B")
+        other._payload_set = other._update_payload_set(other._payload_set, {S.SZ_FRAG_NUMBER: 1, S.SZ_TOTAL_FRAGS: None, S.SZ_FRAGMENT: None, "frag_length": 0})
+        check(other._full_schedule == {S.SZ_ZONE_IDX: "0B"} and other._payload_set == [None], "C17:a-zone-without-schedule-is-unaffected-by-another-zones-transfer",
+              f"full_schedule {str(other._full_schedule)[:50]}, fragment set of {len(other._payload_set)}")
+    finally:
+        _ZlibId.force_blob, _ZlibId.forced_src = None, None
+    return "ok"
+
+
+def h_single(ctx, L):
+    import symx
+    from symx.strings import SymBytes
+
+    sched = _mk_schedule(Sym(ctx), 1, False, (3,))
+    blob = SymBytes([symx.sym_int(ctx, f"b{i}", 0, 255) for i in range(L)])
+    return run_single(sched, blob, ctx.check)
+
+
 def D_eq(a, b):
     from checks.decode import eq_struct
 
@@ -391,6 +450,8 @@ def queries(tier, seed):
     qs = []
     for L in (range(1, 206) if thorough else (1, 2, 40, 41, 42, 81, 82, 83, 123, 124)):
         qs.append(Query(f"slicing[{L}]", lambda c, L=L: h_slicing(c, L), {"h": "slicing", "L": L}, group="slicing", max_secs=200, weight=2))
+    for L in ((1, 20, 41) if not thorough else (1, 2, 10, 20, 30, 40, 41)):
+        qs.append(Query(f"single-fragment[{L}]", lambda c, L=L: h_single(c, L), {"h": "single", "L": L}, group="reassemble", max_secs=200, weight=3))
     for flen in range(1, 42):
         qs.append(Query(f"fragcmd[{flen}]", lambda c, flen=flen: h_fragcmd(c, flen), {"h": "fragcmd", "flen": flen}, group="fragcmd", max_secs=200, weight=3))
     qs.append(Query("two-versions[k=4]", lambda c: h_two_versions(c, 4), {"h": "two", "k": 4}, group="reassemble", max_secs=600, max_paths=100_000, weight=15, split_depth=3))
@@ -485,6 +546,24 @@ def replay(item):
             except Exception as e:  # noqa: BLE001
                 bad.append(f"write command of fragment {i + 1}/{n} ({len(f) // 2} bytes) rejected: {type(e).__name__}: {e}"[:200])
         return {"reproduced": bool(bad), "observed": f"compressed blob of {L} bytes: " + "; ".join(bad), "signature": f"slicing: {label.split(':', 1)[1]}"}
+    if prm["h"] == "single":
+        sched = _mk_schedule(Cex(cex), 1, False, (3,))
+        blob = bytes(int(cex.get(f"b{i}", 0)) for i in range(prm["L"]))
+        failed = []
+
+        def chk(cond, lab, info=None):
+            if not cond:
+                failed.append((lab, info))
+            return bool(cond)
+
+        real = S.zlib
+        S.zlib = _ZlibId
+        try:
+            out = run_single(sched, blob, chk)
+        finally:
+            S.zlib = real
+        info = next((i for l, i in failed if l == label), None)
+        return {"reproduced": label in [l for l, _ in failed], "observed": f"schedule whose compressed form is one fragment of {prm['L']} bytes: {info}"[:400], "signature": f"reassemble: {label.split(':', 1)[1]} (one-fragment schedule)"}
     if prm["h"] == "two":
         A = _mk_schedule(Cex(cex), 1, False, ())
         B = _mk_schedule(Cex(cex), 1, False, (2,))
